@@ -64,20 +64,26 @@ proof fn lemma_dec10_prepend(d: u8, t: Seq<u8>)
     ensures dec10(seq![d] + t) == (d - 0x30) as nat * pow10(t.len()) + dec10(t),
     decreases t.len(),
 {
+    let s = seq![d] + t;
     if t.len() == 0 {
-        assert(seq![d] + t =~= seq![d]);
-        assert(seq![d].drop_last() =~= Seq::<u8>::empty());
-        assert(dec10(seq![d]) == dec10(seq![d].drop_last()) * 10 + (d - 0x30) as nat);
+        assert(s =~= seq![d]);
+        assert(s.len() == 1);
+        assert(s.drop_last().len() == 0);
+        assert(s.last() == d);
+        assert(dec10(s.drop_last()) == 0);
+        assert(dec10(s) == dec10(s.drop_last()) * 10 + (s.last() - 0x30) as nat);
+        assert(pow10(0) == 1);
+        assert(dec10(t) == 0);
     } else {
-        let s = seq![d] + t;
         assert(s.drop_last() =~= seq![d] + t.drop_last());
         assert(s.last() == t.last());
         lemma_dec10_prepend(d, t.drop_last());
-        assert(pow10(t.len()) == 10 * pow10((t.len() - 1) as nat));
+        let p = pow10(t.drop_last().len());
+        assert(pow10(t.len()) == 10 * p);
         assert(dec10(s) == dec10(s.drop_last()) * 10 + (s.last() - 0x30) as nat);
-        assert(dec10(s) == ((d - 0x30) as nat * pow10(t.drop_last().len()) + dec10(t.drop_last())) * 10 + (t.last() - 0x30) as nat);
-        assert(((d - 0x30) as nat * pow10(t.drop_last().len())) * 10 == (d - 0x30) as nat * pow10(t.len())) by (nonlinear_arith)
-            requires pow10(t.len()) == 10 * pow10(t.drop_last().len());
+        assert(dec10(t) == dec10(t.drop_last()) * 10 + (t.last() - 0x30) as nat);
+        let dv = (d - 0x30) as nat;
+        assert((dv * p + dec10(t.drop_last())) * 10 == dv * (10 * p) + dec10(t.drop_last()) * 10) by (nonlinear_arith);
     }
 }
 
@@ -86,19 +92,26 @@ proof fn lemma_b26_prepend(d: u8, t: Seq<u8>)
     ensures b26(seq![d] + t) == letter_val(d) * pow26(t.len()) + b26(t),
     decreases t.len(),
 {
+    let s = seq![d] + t;
     if t.len() == 0 {
-        assert(seq![d] + t =~= seq![d]);
-        assert(seq![d].drop_last() =~= Seq::<u8>::empty());
-        assert(b26(seq![d]) == b26(seq![d].drop_last()) * 26 + letter_val(d));
+        assert(s =~= seq![d]);
+        assert(s.len() == 1);
+        assert(s.drop_last().len() == 0);
+        assert(s.last() == d);
+        assert(b26(s.drop_last()) == 0);
+        assert(b26(s) == b26(s.drop_last()) * 26 + letter_val(s.last()));
+        assert(pow26(0) == 1);
+        assert(b26(t) == 0);
     } else {
-        let s = seq![d] + t;
         assert(s.drop_last() =~= seq![d] + t.drop_last());
         assert(s.last() == t.last());
         lemma_b26_prepend(d, t.drop_last());
-        assert(pow26(t.len()) == 26 * pow26((t.len() - 1) as nat));
+        let p = pow26(t.drop_last().len());
+        assert(pow26(t.len()) == 26 * p);
         assert(b26(s) == b26(s.drop_last()) * 26 + letter_val(s.last()));
-        assert((letter_val(d) * pow26(t.drop_last().len())) * 26 == letter_val(d) * pow26(t.len())) by (nonlinear_arith)
-            requires pow26(t.len()) == 26 * pow26(t.drop_last().len());
+        assert(b26(t) == b26(t.drop_last()) * 26 + letter_val(t.last()));
+        let dv = letter_val(d);
+        assert((dv * p + b26(t.drop_last())) * 26 == dv * (26 * p) + b26(t.drop_last()) * 26) by (nonlinear_arith);
     }
 }
 
@@ -114,26 +127,156 @@ proof fn lemma_dec10_bound(t: Seq<u8>)
     }
 }
 
+/// b26 of k letters lies in [ (26^k - 1)/25 , 26 * (26^k - 1)/25 ]; only the coarse bound b26 < 27/25 * 26^k... we use b26(t) * 25 <= 26 * (pow26(k) - 1)
 proof fn lemma_b26_bound(t: Seq<u8>)
     requires all_letters(t),
-    ensures b26(t) <= 27 * pow26(t.len()) / 25, b26(t) >= (if t.len() > 0 { 1nat } else { 0nat }),
+    ensures b26(t) * 25 <= 26 * (pow26(t.len()) - 1), t.len() > 0 ==> b26(t) >= 1,
     decreases t.len(),
 {
     if t.len() > 0 {
         assert forall|i: int| 0 <= i < t.drop_last().len() implies is_letter(#[trigger] t.drop_last()[i]) by { assert(t.drop_last()[i] == t[i]); }
         lemma_b26_bound(t.drop_last());
         assert(is_letter(t[t.len() - 1]));
+        assert(1 <= letter_val(t.last()) <= 26);
+        assert(pow26(t.len()) == 26 * pow26(t.drop_last().len()));
     }
 }
+
+proof fn lemma_pow10_vals()
+    ensures pow10(0) == 1, pow10(1) == 10, pow10(2) == 100, pow10(3) == 1000, pow10(4) == 10000, pow10(5) == 100000,
+        pow10(6) == 1000000, pow10(7) == 10000000,
+{
+    reveal_with_fuel(pow10, 9);
+}
+proof fn lemma_pow26_vals()
+    ensures pow26(0) == 1, pow26(1) == 26, pow26(2) == 676, pow26(3) == 17576,
+{
+    reveal_with_fuel(pow26, 5);
+}
+proof fn lemma_pow_mono(a: nat, b: nat)
+    requires a <= b,
+    ensures pow10(a) <= pow10(b), pow26(a) <= pow26(b), pow10(a) >= 1, pow26(a) >= 1,
+    decreases b,
+{
+    if a < b { lemma_pow_mono(a, (b - 1) as nat); }
+    else if a > 0 { lemma_pow_mono((a - 1) as nat, (b - 1) as nat); }
+}
+
+/// last k bytes of s
+pub open spec fn tail(s: Seq<u8>, k: int) -> Seq<u8> { s.subrange(s.len() - k, s.len() as int) }
+/// bytes [len-k, len-nd) of s
+pub open spec fn mid(s: Seq<u8>, k: int, nd: int) -> Seq<u8> { s.subrange(s.len() - k, s.len() - nd) }
+
+/// the (row, col) an A1 name `letters ++ digits` (nl letters) denotes, 0-based
+pub open spec fn a1_value(s: Seq<u8>, nl: int) -> (u32, Option<u32>) {
+    ((dec10(s.subrange(nl, s.len() as int)) - 1) as u32,
+     if nl > 0 { Some((b26(s.subrange(0, nl)) - 1) as u32) } else { None })
+}
+/// shape within the range where u32 arithmetic cannot overflow: <= 9 digits, <= 6 letters
+pub open spec fn a1_small(s: Seq<u8>, nl: int) -> bool { a1_shape(s, nl) && s.len() - nl <= 9 && nl <= 6 }
 
 //@@ fn src/xlsx/mod.rs get_row_and_optional_column props=C01,C15,C17 entry ret=r
 //@@ sig
     ensures
-        //# C01.a1_decode
-        forall|nl: int| a1_wf(range@, nl) && dec10(range@.subrange(nl, range@.len() as int)) >= 1 ==>
-            r == Ok::<(u32, Option<u32>), XlsxError>((
-                (dec10(range@.subrange(nl, range@.len() as int)) - 1) as u32,
-                Some((b26(range@.subrange(0, nl)) - 1) as u32))),
+        //# C01,C15,C17.a1_decode
+        forall|nl: int| #[trigger] a1_small(range@, nl) && dec10(range@.subrange(nl, range@.len() as int)) >= 1 ==>
+            r == Ok::<(u32, Option<u32>), XlsxError>(a1_value(range@, nl)),
+        //# C01,C15,C17.a1_zero_row_rejected
+        forall|nl: int| #[trigger] a1_small(range@, nl) && dec10(range@.subrange(nl, range@.len() as int)) == 0 ==> r is Err,
+        //# C01,C15,C17.a1_malformed_rejected
+        (forall|nl: int| !#[trigger] a1_shape(range@, nl)) ==> r is Err,
+//@@ before /for c in /
+    let ghost mut nd: int = 0;
+    let ghost s = range@;
+    let ghost n = range@.len() as int;
+    proof { assert(tail(s, 0) =~= Seq::<u8>::empty()); assert(mid(s, 0, 0) =~= Seq::<u8>::empty()); }
+//@@ loop 0 it
+        invariant
+            s == range@, n == s.len(),
+            it.seq().len() == n,
+            forall|i: int| 0 <= i < n ==> *(#[trigger] it.seq()[i]) == s[n - 1 - i],
+            0 <= nd <= it.index@ <= n,
+            readrow ==> nd == it.index@,
+            !readrow ==> nd < it.index@,
+            all_digits(tail(s, nd)),
+            all_letters(mid(s, it.index@ as int, nd)),
+            row == dec10(tail(s, nd)),
+            readrow ==> pow == pow10(nd as nat) && col == 0,
+            !readrow ==> row >= 1 && col == b26(mid(s, it.index@ as int, nd)) && pow == pow26((it.index@ - nd) as nat),
+//@@ before /match \*c \{/
+            let ghost k = it.index@ as int;
+            proof {
+                assert(*c == s[n - 1 - k]);
+                assert(tail(s, k + 1) =~= seq![*c] + tail(s, k));
+                assert(mid(s, k + 1, nd) =~= seq![*c] + mid(s, k, nd));
+                // no split into letters ++ digits can survive a non-alphanumeric byte, a digit left of a letter
+                assert(forall|nl: int| #[trigger] a1_shape(s, nl) ==> (nl <= n - 1 - k ==> is_digit(s.subrange(nl, n)[n - 1 - k - nl])) && (nl > n - 1 - k ==> is_letter(s.subrange(0, nl)[n - 1 - k])));
+                if !readrow {
+                    // s[n - nd - 1] is a letter
+                    assert(is_letter(mid(s, k, nd)[k - nd - 1]));
+                    assert(forall|nl: int| #[trigger] a1_shape(s, nl) ==> (nl <= n - nd - 1 ==> is_digit(s.subrange(nl, n)[n - nd - 1 - nl])));
+                }
+            }
+//@@ before /row \+= /
+                    proof {
+                        lemma_dec10_prepend(c, tail(s, k));
+                        lemma_dec10_bound(tail(s, k));
+                        assert(all_digits(tail(s, k + 1))) by {
+                            assert forall|i: int| 0 <= i < k + 1 implies is_digit(#[trigger] tail(s, k + 1)[i]) by {
+                                if i > 0 { assert(tail(s, k + 1)[i] == tail(s, k)[i - 1]); }
+                            }
+                        }
+                    }
+//@@ after /pow \*= [^;]*;/#0of3
+                    proof { nd = nd + 1; assert(mid(s, k + 1, nd) =~= Seq::<u8>::empty()); }
+//@@ before /col \+= /#0of2
+                proof {
+                    if nd == k { assert(mid(s, k, nd) =~= Seq::<u8>::empty()); }
+                    lemma_b26_prepend(c, mid(s, k, nd));
+                    assert(all_letters(mid(s, k + 1, nd))) by {
+                        assert forall|i: int| 0 <= i < k + 1 - nd implies is_letter(#[trigger] mid(s, k + 1, nd)[i]) by {
+                            if i > 0 { assert(mid(s, k + 1, nd)[i] == mid(s, k, nd)[i - 1]); }
+                        }
+                    }
+                }
+//@@ before /col \+= /#1of2
+                proof {
+                    if nd == k { assert(mid(s, k, nd) =~= Seq::<u8>::empty()); }
+                    lemma_b26_prepend(c, mid(s, k, nd));
+                    assert(all_letters(mid(s, k + 1, nd))) by {
+                        assert forall|i: int| 0 <= i < k + 1 - nd implies is_letter(#[trigger] mid(s, k + 1, nd)[i]) by {
+                            if i > 0 { assert(mid(s, k + 1, nd)[i] == mid(s, k, nd)[i - 1]); }
+                        }
+                    }
+                }
+//@@ after /if readrow \{/#1of3
+                    proof {
+                        // first letter met: any split must put the boundary exactly here, so its digit part is tail(s, k)
+                        assert forall|nl: int| #[trigger] a1_shape(s, nl) implies nl == n - k by {
+                            if nl > n - k { assert(is_letter(s.subrange(0, nl)[n - k])); assert(is_digit(tail(s, k)[0])); }
+                        }
+                        assert(tail(s, k) =~= s.subrange(n - k, n));
+                    }
+//@@ after /if readrow \{/#2of3
+                    proof {
+                        // first letter met: any split must put the boundary exactly here, so its digit part is tail(s, k)
+                        assert forall|nl: int| #[trigger] a1_shape(s, nl) implies nl == n - k by {
+                            if nl > n - k { assert(is_letter(s.subrange(0, nl)[n - k])); assert(is_digit(tail(s, k)[0])); }
+                        }
+                        assert(tail(s, k) =~= s.subrange(n - k, n));
+                    }
+//@@ before /let row = row/
+    proof {
+        assert(tail(s, nd) =~= s.subrange(n - nd, n));
+        assert(mid(s, n, nd) =~= s.subrange(0, n - nd));
+        assert(a1_shape(s, n - nd));
+        // uniqueness of the split
+        assert forall|nl: int| #[trigger] a1_shape(s, nl) implies nl == n - nd by {
+            if nl < n - nd { assert(is_digit(s.subrange(nl, n)[0])); assert(is_letter(s.subrange(0, n - nd)[nl])); }
+            if nl > n - nd { assert(is_letter(s.subrange(0, nl)[n - nd])); assert(is_digit(s.subrange(n - nd, n)[0])); }
+        }
+        lemma_b26_bound(mid(s, n, nd));
+    }
 //@@ end
 
 } // verus!
